@@ -18,7 +18,7 @@ EARLY = ("ST", "PR")  # unsolicited frames right behind the handshake message: a
 
 
 def run_session(name_variant: str, expected: bool, app: tuple[str, ...], cuts: tuple[int, ...], probe_send: bool = False,
-                recycled: bool = False, listener: str = "", stall: float = 0.0, hello_name: str | None = None) -> dict[str, Any]:
+                recycled: bool = False, listener: str = "", stall: float = 0.0, hello_name: str | None = None, b2b: bool = False) -> dict[str, Any]:
     """One fresh session (fresh client ephemeral key) whose server stream is cut at ``cuts``; () = one chunk, (-1,) = byte-wise."""
     from aioesphomeapi.core import APIConnectionError, BadNameAPIError
 
@@ -62,6 +62,12 @@ def run_session(name_variant: str, expected: bool, app: tuple[str, ...], cuts: t
                 w.io_chunk(s.sock, stream[pos:q])
                 w.loop.advance_to(w.loop.time() + stall)
                 w.drain()
+            elif b2b:
+                # back to back: the next chunk is readable in the very next loop iteration (nothing but that one iteration in between)
+                w.io_chunk(s.sock, stream[pos:q])
+                w.step()
+                if q == s.barrier:
+                    w.drain()  # the responder answers the client's hello request only after it has received it
             else:
                 s.deliver(stream[pos:q])
             pos = q
@@ -78,7 +84,9 @@ def run_session(name_variant: str, expected: bool, app: tuple[str, ...], cuts: t
             except Exception as e:  # noqa: BLE001
                 viol = f"client output does not decrypt at the responder: {type(e).__name__}: {e}"
                 break
-            if (sent_app > 0) != (q >= hs_end):
+            if b2b and q != s.barrier:
+                pass  # the client's first frames are written by its connect task, one iteration after the handshake frame was read
+            elif (sent_app > 0) != (q >= hs_end):
                 viol = (f"after {q} server bytes (handshake frame ends at {hs_end}) the client has written {sent_app} application frames: "
                         f"readiness {'too early' if q < hs_end else 'missing'}")
                 break
@@ -96,12 +104,19 @@ def run_session(name_variant: str, expected: bool, app: tuple[str, ...], cuts: t
                 viol = (f"after {q} server bytes: {len(got)} messages delivered ({[g[0] for g in got]}), the responder has completely sent "
                         f"{n_exp} ({[p[0] for p in s.plain[:n_exp]]}){' [listener=' + listener + ']' if listener else ''}")
                 break
+        w.drain()
         out = w.outcome("finish")
         res = w.results.get("finish")
         if viol is None:
             if reject:
                 exc = res[1] if res else None
-                if out is None or not isinstance(exc, BadNameAPIError) or exc.received_name != name:
+                if isinstance(name, bytes):
+                    # not text: refused with some connection error (which class says so is not specified), nothing delivered
+                    if out is None or not isinstance(exc, APIConnectionError):
+                        viol = f"announced name {name!r} (not text) vs expected {exp!r}: finish ended {out}; expected a connection error"
+                    elif s.probe.calls:
+                        viol = "messages delivered although the session was refused"
+                elif out is None or not isinstance(exc, BadNameAPIError) or exc.received_name != name:
                     viol = f"name {name!r} vs expected {exp!r}: finish ended {out} ({getattr(exc, 'received_name', None)!r}); expected bad-name carrying {name!r}"
                 elif s.probe.calls:
                     viol = "messages delivered although the session was refused"
@@ -143,6 +158,8 @@ def run(tier: str, seed: int) -> Result:
     # 1. name rule: every (announced name, expected) combination, whole / byte-wise / every single cut in the hello+handshake
     for nv in NAME_VARIANTS:
         for exp in (False, True):
+            if isinstance(NAME_VARIANTS[nv][0], bytes) and not exp:
+                continue  # nothing is specified for a device whose announced name is not text when no name is expected
             n, ends = stream_layout(nv, exp, ("ST",))
             jobs.append((nv, exp, ("ST",), (), False))
             jobs.append((nv, exp, ("ST",), (-1,), True))
@@ -174,6 +191,12 @@ def run(tier: str, seed: int) -> Result:
         [p for p in positions if any(abs(p - e) <= 6 for e in ends)] + list(range(1, ends[1] + 8)) + positions[::3]))
     for a, b in itertools.combinations(pair_pos, 2):
         jobs.append(("equal", True, app, (a, b), False))
+    # 2b. the same single cuts and byte-wise delivery with the chunks arriving back to back (one loop iteration apart)
+    jobs.append(("equal", True, app, (-1,), False, False, "", 0.0, None, True))
+    for c in positions:
+        jobs.append(("equal", True, app, (c,), False, False, "", 0.0, None, True))
+    for a, b in itertools.combinations(sorted(set(range(1, ends[1] + 8)) | {e + d for e in ends for d in (-1, 0, 1) if 0 < e + d < n}), 2):
+        jobs.append(("equal", True, app, (a, b), False, False, "", 0.0, None, True))
     # 3. all 2^(k-1) segmentations inside a 12-byte window sliding across every frame boundary (hello/handshake/data)
     win = 12 if not q else 10
     for e in ends[:-1]:
@@ -228,10 +251,10 @@ def run(tier: str, seed: int) -> Result:
     for a, o in outs:
         if o["viol"]:
             kind = o["viol"].split(":")[0][:60]
-            res.add(f"name={a[0]},expected={a[1]},app={a[2]},cuts={a[3]}{',stall=' + str(a[7]) if len(a) > 7 and a[7] else ''}{',hello_name=' + repr(a[8]) if len(a) > 8 and a[8] is not None else ''}|{kind}", o["viol"],
+            res.add(f"name={a[0]},expected={a[1]},app={a[2]},cuts={a[3]}{',stall=' + str(a[7]) if len(a) > 7 and a[7] else ''}{',hello_name=' + repr(a[8]) if len(a) > 8 and a[8] is not None else ''}{',back-to-back' if len(a) > 9 and a[9] else ''}|{kind}", o["viol"],
                     {"harness": "c03", "name_variant": a[0], "expected": a[1], "app": list(a[2]), "cuts": list(a[3]), "probe_send": a[4],
                      "recycled": a[5] if len(a) > 5 else False, "listener": a[6] if len(a) > 6 else "", "stall": a[7] if len(a) > 7 else 0.0,
-                     "hello_name": a[8] if len(a) > 8 else None})
+                     "hello_name": a[8] if len(a) > 8 else None, "b2b": a[9] if len(a) > 9 else False})
     if len(res.violations) > 6:
         res.violations = res.violations[:6]
     if not res.violations and (len(outs) < 5000 or rejects < 50):
@@ -262,6 +285,6 @@ def replay(rp: dict[str, Any]) -> bool:
     env.load()
     d = rp["detail"]
     o = run_session(d["name_variant"], d["expected"], tuple(d["app"]), tuple(d["cuts"]), d.get("probe_send", False),
-                    d.get("recycled", False), d.get("listener", ""), float(d.get("stall", 0.0)), d.get("hello_name"))
+                    d.get("recycled", False), d.get("listener", ""), float(d.get("stall", 0.0)), d.get("hello_name"), bool(d.get("b2b", False)))
     print(o)
     return o["viol"] is None
